@@ -41,7 +41,8 @@ def main(argv=None) -> int:
     except ModuleNotFoundError:
         print(f"ANALYSIS-ERROR property={prop}: no rule module")
         return 2
-    ck = Checker(prop, tier, seed, only, explain)
+    scratch = os.path.abspath(args.repo) != "/repo"
+    ck = Checker(prop, tier, seed, only, explain, scratch=scratch)
     try:
         prog = Program(args.repo)
         ctx = Context(prog, ck, inline_depth=6 if tier == "thorough" else 3)
